@@ -93,3 +93,6 @@ add("C33", "exploration", "bounded-exhaustive enumeration of CSV files with one 
 add("C19", "exploration", "bounded-exhaustive enumeration of WHERE atoms and their ordered conjunctions through the real SQL pipeline against a reference filter",
     "~195 atoms per fixture (3 columns x 5 operators x 6 bound positions, Epoch bounds in 3 encodings, BETWEEN over bound pairs) on a fixed 1Min and a variable 1H bucket; every atom alone and every ordered conjunction with a representative second atom (thorough: EVERY ordered pair, ~76000 statements) through BuildQueryTree -> Materialize; expected = stored rows filtered by the statement's semantics (BETWEEN strict)",
     TB + "; UTC", "seqmc")
+add("C20", "exploration", "bounded-exhaustive enumeration of select lists x aliases, LIMIT values and INSERT INTO sources/targets through the real SQL pipeline",
+    "every ordered list of 1-3 distinct columns x every alias subset (with/without WHERE), SELECT * with LIMIT 0..rows+1 (with/without WHERE), INSERT INTO a same-timeframe and a 5Min target for every datetime-string Epoch atom of C19; relational reference (projection, rename, prefix; target = selected rows truncated to the target timeframe, last wins)",
+    TB + "; UTC", "seqmc")
